@@ -123,6 +123,9 @@ def run_property(pid, tier='quick', seed=0, repo='/repo', explain=None, quiet=Fa
         ctx.violation('anchor:%s' % e, 'unresolved-anchor: %s' % e)
     except TooManyPaths as e:
         ctx.violation('engine:too-many-paths:%s' % e, 'engine failure: path explosion in %s (not a pass)' % e)
+    except Exception as e:   # fail closed, but diagnosably: a rule that cannot read the code is not a pass
+        ctx.violation('engine:rule-crash:%s' % type(e).__name__, 'engine failure: a rule raised %s: %s (not a pass)' % (type(e).__name__, e),
+                      None, traceback.format_exc()[-1500:])
     extra = {}
     if tier == 'thorough' and hasattr(mod, 'thorough'):
         try:
